@@ -11,13 +11,13 @@ Fixpoint parse_packets (ts : list bytes) : option (list rpacket) :=
   match ts with
   | [] => Some []
   | t :: r =>
-      match split_on ":"%byte t, parse_packets r with
+      match fsplit_on ":"%byte t, parse_packets r with
       | [c; tok; _; _], Some ps => match read_N c with Some n => Some ((n, tok) :: ps) | None => None end
       | _, _ => None end
   end.
 
 Definition run_line (l : bytes) : bytes :=
-  match split_on sp l with
+  match fsplit_on sp l with
   | _ :: p :: rest =>
       if negb (bytes_eqb p (bs "P")) then bs "BADCASE" else
       match parse_packets rest with
